@@ -1180,9 +1180,41 @@ func hmacTableFor(ks keyStore, envs [][]byte, rm0 []byte, pol int) string {
 	return strings.Join(table, ",")
 }
 
+// Session cases are queued and handed out a few at a time between the other
+// model cases (drainSess), so that they are spread over the Coq shards; quota
+// is the number of argument octets a caller may still spend.
+type pendingCase struct {
+	fn   string
+	args []string
+	out  string
+}
+
+var sessPending []pendingCase
+
+func queueCase(quota *int, fn string, args []string, out string) bool {
+	size := 0
+	for _, a := range args {
+		size += len(a)
+	}
+	if size > *quota {
+		return false
+	}
+	*quota -= size
+	sessPending = append(sessPending, pendingCase{fn, args, out})
+	return true
+}
+
+func drainSess(n int) {
+	for ; n != 0 && len(sessPending) > 0; n-- {
+		c := sessPending[0]
+		sessPending = sessPending[1:]
+		Emit(c.fn, c.args, c.out)
+	}
+}
+
 // emitSession ties the verdict of the real receive path to the model:
 // Transfer.In to chain_verify, the others to tsig_verify per message.
-func (s *scenario) emitSession(o *sessObs) {
+func (s *scenario) emitSession(o *sessObs, quota *int) {
 	if o.setup != nil || o.c == nil || !o.applied || o.infra != "" || len(o.items) == 0 {
 		return
 	}
@@ -1212,8 +1244,9 @@ func (s *scenario) emitSession(o *sessObs) {
 		for _, e := range envs {
 			hs = append(hs, Hx(e))
 		}
-		Emit("chain", []string{strings.Join(hs, ","), Hx(o.c.rm0), u(s.now), "0", ks.desc(), hmacTableFor(ks, envs, o.c.rm0, polXfr)}, got)
-		st["sess_model_chain"]++
+		if queueCase(quota, "chain", []string{strings.Join(hs, ","), Hx(o.c.rm0), u(s.now), "0", ks.desc(), hmacTableFor(ks, envs, o.c.rm0, polXfr)}, got) {
+			st["sess_model_chain"]++
+		}
 		return
 	}
 	// per message, up to the first one that is not the signer's
@@ -1237,8 +1270,9 @@ func (s *scenario) emitSession(o *sessObs) {
 		if s.pol() == polLoop && i > 0 {
 			prior = macOfEnv(o.tr.envs[i-1])
 		}
-		Emit("verify", []string{Hx(e), Hx(prior), "false", u(s.now), "0", ks.desc(), hmacTableFor(ks, [][]byte{e}, prior, polStateless)}, got)
-		st["sess_model_verify"]++
+		if queueCase(quota, "verify", []string{Hx(e), Hx(prior), "false", u(s.now), "0", ks.desc(), hmacTableFor(ks, [][]byte{e}, prior, polStateless)}, got) {
+			st["sess_model_verify"]++
+		}
 	}
 }
 
@@ -1255,7 +1289,7 @@ type srvRec struct {
 // runServer feeds nq queries (one tampered, at position k) to a real dns.Server
 // over a scripted TCP connection or UDP socket and checks TsigStatus for each
 // and the signatures of what the server wrote back.
-func runServer(r *Rng, udp bool, nq int, provider bool, tm *tamper, k int, emit bool) {
+func runServer(r *Rng, udp bool, nq int, provider bool, tm *tamper, k int, quota *int) {
 	keys := genSessKeys(r, provider)
 	alg := &algs[r.Intn(len(algs))]
 	now := uint64(time.Now().Unix())
@@ -1420,8 +1454,8 @@ func runServer(r *Rng, udp bool, nq int, provider bool, tm *tamper, k int, emit 
 		} else if !verified {
 			Viol("C11/Server/chain-rejected", "signed query "+Itoa(i)+" of "+Itoa(nq)+" not verified: "+errClass(rec.status), in(""))
 		}
-		if emit && rec.hasTsig && tsigClasses[errClass(rec.status)] && allUnpack([][]byte{e}) {
-			Emit("verify", []string{Hx(e), "", "false", u(now), "0", ks.desc(), hmacTableFor(ks, [][]byte{e}, nil, polStateless)}, errClass(rec.status))
+		if quota != nil && rec.hasTsig && tsigClasses[errClass(rec.status)] && allUnpack([][]byte{e}) &&
+			queueCase(quota, "verify", []string{Hx(e), "", "false", u(now), "0", ks.desc(), hmacTableFor(ks, [][]byte{e}, nil, polStateless)}, errClass(rec.status)) {
 			st["sess_model_verify"]++
 		}
 		if !verified || tampered {
@@ -1498,9 +1532,10 @@ func runSessions(r *Rng, tier string) {
 		plans[3].lens = append(plans[3].lens, 2, 5)
 		plans[4].lens = append(plans[4].lens, 2, 5)
 	}
-	budget := 260 // model cases from tampered runs (quick)
+	// argument octets of model cases one scenario may queue
+	chainQuota, verifyQuota, serverQuota := 16000, 8000, 80000
 	if thorough {
-		budget = 2500
+		chainQuota, verifyQuota, serverQuota = 60000, 30000, 600000
 	}
 	sc := 0
 	for _, p := range plans {
@@ -1512,16 +1547,21 @@ func runSessions(r *Rng, tier string) {
 			for rep := 0; rep < reps; rep++ {
 				sc++
 				s := genScenario(r, p.kind, n, sc%3 == 0)
+				quota := verifyQuota
+				if s.pol() == polXfr {
+					quota = chainQuota
+				}
 				o := s.run(nil, -1, 0)
 				s.check(o, nil, -1)
-				s.emitSession(o)
+				s.emitSession(o, &quota)
 				// further splits of the same stream lengths, untampered
 				for extra := 0; extra < 2; extra++ {
 					s2 := genScenario(r, p.kind, n, (sc+extra)%2 == 0)
 					o2 := s2.run(nil, -1, 0)
 					s2.check(o2, nil, -1)
 					if extra == 0 {
-						s2.emitSession(o2)
+						q2 := quota / 3
+						s2.emitSession(o2, &q2)
 					}
 				}
 				for ti := range tampers {
@@ -1535,10 +1575,8 @@ func runSessions(r *Rng, tier string) {
 						}
 						o := s.run(tm, k, r.Next())
 						s.check(o, tm, k)
-						if budget > 0 && (r.Intn(12) == 0 || (tm.name == "strip-tsig" && r.Intn(3) == 0)) {
-							before := st["sess_model_chain"] + st["sess_model_verify"]
-							s.emitSession(o)
-							budget -= st["sess_model_chain"] + st["sess_model_verify"] - before
+						if r.Intn(20) == 0 || (tm.name == "strip-tsig" && r.Intn(3) == 0) {
+							s.emitSession(o, &quota)
 						}
 					}
 				}
@@ -1553,14 +1591,18 @@ func runSessions(r *Rng, tier string) {
 	for i := 0; i < nsrv; i++ {
 		for _, udp := range []bool{false, true} {
 			nq := 1 + (i+r.Intn(3))%5
-			runServer(r, udp, nq, i%3 == 1, nil, -1, true)
+			runServer(r, udp, nq, i%3 == 1, nil, -1, &serverQuota)
 			for ti := range tampers {
 				tm := &tampers[ti]
 				if tm.chain {
 					continue
 				}
 				for _, k := range positionsFor(r, nq, false) {
-					runServer(r, udp, nq, (i+ti)%3 == 1, tm, k, r.Intn(10) == 0)
+					var q *int
+					if r.Intn(30) == 0 {
+						q = &serverQuota
+					}
+					runServer(r, udp, nq, (i+ti)%3 == 1, tm, k, q)
 				}
 			}
 		}
